@@ -3982,7 +3982,10 @@ class IfThenElse(Construct):
         return sc._build(obj, stream, context, path)
 
     def _sizeof(self, context, path):
-        condfunc = evaluate(self.condfunc, context)
+        try:
+            condfunc = evaluate(self.condfunc, context)
+        except (KeyError, AttributeError):
+            raise SizeofError("cannot calculate size, key not found in context", path=path)
         sc = self.thensubcon if condfunc else self.elsesubcon
         return sc._sizeof(context, path)
 
@@ -5014,7 +5017,10 @@ class FixedSized(Subconstruct):
         return buildret
 
     def _sizeof(self, context, path):
-        length = evaluate(self.length, context)
+        try:
+            length = evaluate(self.length, context)
+        except (KeyError, AttributeError):
+            raise SizeofError("cannot calculate size, key not found in context", path=path)
         if length < 0:
             raise PaddingError("length cannot be negative", path=path)
         return length
